@@ -62,8 +62,9 @@ def render_line(i, l):
 
 
 FAKE = open(os.path.join(vlib.VERIF, "drivers", "fakeaddon.py")).read().replace(
-    'src = target[:-5] if target.endswith(".dump") else target\n',
-    'src = target[:-5] if target.endswith(".dump") else target\nif os.path.basename(src) != "t.c":\n    sys.exit(0)\n')
+    'for line in case["lines"]:\n',
+    'if os.path.basename(src) != "t.c":\n    sys.exit(0)\nfor line in case["lines"]:\n')
+assert 'basename(src) != "t.c"' in FAKE
 
 
 def run_case(c):
@@ -74,11 +75,13 @@ def run_case(c):
         f.write(U_C)
     with open(os.path.join(root, "fake.py"), "w") as f:
         f.write(FAKE)
+    # descriptor: "ctu": true makes cppcheck call the addon for the whole-program (.ctu-info) stage as well
+    json.dump({"script": os.path.join(root, "fake.py"), "ctu": True}, open(os.path.join(root, "fake.json"), "w"))
     lines = [render_line(i + 1, l) for i, l in enumerate(c["lines"])]
     if c.get("rawlines"):
         lines = c["rawlines"]
     json.dump({"lines": lines, "exit": c["exit"]}, open(os.path.join(root, "case.json"), "w"))
-    args = ["-q", "--template=" + projgen.TEMPLATE, "--addon=fake.py"]
+    args = ["-q", "--template=" + projgen.TEMPLATE, "--addon=fake.json", "--addon-python=" + os.path.realpath(__import__("sys").executable)]
     if c["enable"] != "none":
         args.append("--enable=" + c["enable"])
     if c["suppress"]:
@@ -165,7 +168,7 @@ def main(tier, seed, replay=None):
         cases = tlc_gen(2)
         total = len(cases)
         if tier == "quick":
-            cases = rnd.sample(cases, 260)
+            cases = rnd.sample(cases, 160)
         else:
             cases = cases + rnd.sample(tlc_gen(3), 3000)
     obs, runs = [], []
@@ -214,7 +217,7 @@ def main(tier, seed, replay=None):
         return 0
     rc, new, known = vlib.verdict(PID, violations)
     cov = {"evaluations": len(obs) + nmal, "distinct_nontrivial": len([1 for o in obs if o["case"]["lines"]]),
-           "rule": "one run per TLC-enumerated case (addon output of <= 2 lines x exit code x enable x suppression x executor x build dir; quick = 260 seeded of them, thorough = all + 3000 seeded of length 3) + field-level malformed lines; non-trivial = case with at least one output line",
+           "rule": "one run per TLC-enumerated case (addon output of <= 2 lines x exit code x enable x suppression x executor x build dir; quick = 160 seeded of them, thorough = all + 3000 seeded of length 3) + field-level malformed lines; non-trivial = case with at least one output line",
            "case_space_len2": total if not replay else 0, "traces_validated_against_impl": tres.validated, "bad": len(bad), "malformed_runs": nmal,
            "samples": [obs[0], obs[-1]]}
     vlib.write_evidence(PID, tier, seed, "exploration", cov, time.time() - t0, violations=new,
